@@ -55,6 +55,7 @@ type query struct {
 	Size   int
 	LbSec  int
 	NowOff int
+	Nanos  int64 // sub-second part of the look-back query instant
 	Inst   string
 }
 
@@ -74,7 +75,7 @@ func answer(r ring.ReadRing, q query, base time.Time) string {
 		s := r.ShuffleShard(q.ID, q.Size)
 		return canonSet(s.GetAllHealthy(ring.Reporting)) + canonSet(s.Get(q.Key, ring.Write, nil, nil, nil)) + canonSet(s.GetReplicationSetForOperation(ring.Read)) + fmt.Sprint(s.InstancesCount(), s.InstancesWithTokensCount(), s.ZonesCount(), s.Zones(), s.HasInstance(q.Inst))
 	case "lookback":
-		s := r.ShuffleShardWithLookback(q.ID, q.Size, time.Duration(q.LbSec)*time.Second, base.Add(time.Duration(q.NowOff)*time.Second))
+		s := r.ShuffleShardWithLookback(q.ID, q.Size, time.Duration(q.LbSec)*time.Second, base.Add(time.Duration(q.NowOff)*time.Second+time.Duration(q.Nanos)))
 		return canonSet(s.GetAllHealthy(ring.Reporting)) + canonSet(s.Get(q.Key, ring.Read, nil, nil, nil)) + fmt.Sprint(s.InstancesCount(), s.HasInstance(q.Inst))
 	case "counts":
 		var sb strings.Builder
@@ -275,6 +276,7 @@ func TestInstanceRingHistoryRapid(t *testing.T) {
 						LbSec:  rapid.SampledFrom([]int{5, 30}).Draw(rt, "lookback"),
 						NowOff: int(time.Since(base)/time.Second) + rapid.IntRange(-10, 10).Draw(rt, "nowOff"),
 						Inst:   xs[rapid.IntRange(0, len(xs)-1).Draw(rt, "queryInst")],
+						Nanos:  rapid.SampledFrom([]int64{0, 0, 1, 400_000_000, 999_999_999}).Draw(rt, "queryNanos"),
 					}
 					if q.Kind == "lookback" && rapid.Bool().Draw(rt, "anchorWindow") {
 						// place the window start on / next to a registration or read-only change time
@@ -344,7 +346,7 @@ func answerP(r *ring.PartitionRing, q query, base int64) string {
 		p, perr := s.ActivePartitionForKey(q.Key)
 		return canonPRing(s) + fmt.Sprint(p, perr)
 	case "lookback":
-		s, err := r.ShuffleShardWithLookback(q.ID, q.Size, time.Duration(q.LbSec)*time.Second, time.Unix(base+int64(q.NowOff), 0))
+		s, err := r.ShuffleShardWithLookback(q.ID, q.Size, time.Duration(q.LbSec)*time.Second, time.Unix(base+int64(q.NowOff), q.Nanos))
 		if err != nil {
 			return "ERR " + err.Error()
 		}
@@ -409,6 +411,7 @@ func genPQuery(rt *rapid.T) query {
 		Size:   rapid.IntRange(0, 9).Draw(rt, "size"),
 		LbSec:  rapid.SampledFrom([]int{5, 30, 70}).Draw(rt, "lookback"),
 		NowOff: rapid.IntRange(-20, 30).Draw(rt, "nowOff"),
+		Nanos:  rapid.SampledFrom([]int64{0, 0, 1, 400_000_000, 999_999_999}).Draw(rt, "queryNanos"),
 	}
 }
 
